@@ -4,7 +4,7 @@
 use crate::case::*;
 use std::time::Instant;
 
-fn fails(case: &Case, clause: &str) -> Option<(String, Option<Vec<u16>>, Option<Fault>)> {
+fn fails_once(case: &Case, clause: &str) -> Option<(String, Option<Vec<u16>>, Option<Fault>)> {
     let o = crate::run_one(case, "min");
     if o.harness_error.is_some() {
         return None;
@@ -13,6 +13,27 @@ fn fails(case: &Case, clause: &str) -> Option<(String, Option<Vec<u16>>, Option<
         Some(v) if v.clause == clause => Some((v.detail, o.schedule, o.narrowed)),
         _ => None,
     }
+}
+
+/// Does the case still violate `clause`? For THR cases whose recorded schedule no longer applies
+/// after a program change, a bounded number of fresh schedules is searched; the schedule that
+/// fails is returned so that the caller can make it the explicit one again.
+fn fails(case: &Case, clause: &str) -> Option<(String, Option<Vec<u16>>, Option<Fault>)> {
+    if let Some(r) = fails_once(case, clause) {
+        return Some(r);
+    }
+    if case.engine == Engine::Thr && case.schedule.is_some() {
+        for k in 0..24u64 {
+            let mut c = case.clone();
+            c.schedule = None;
+            c.cfg.sched_seed = crate::rng::mix(case.cfg.sched_seed ^ k.wrapping_mul(0x9E37_79B9));
+            c.cfg.stickiness = [0u8, 30, 50, 70, 90][(k % 5) as usize];
+            if let Some(r) = fails_once(&c, clause) {
+                return Some(r);
+            }
+        }
+    }
+    None
 }
 
 fn shrink_vals(case: &mut Case) {
@@ -120,7 +141,12 @@ pub fn minimize(mut case: Case, budget_secs: f64) -> Option<Replay> {
         case.fault = f;
     }
     // it must reproduce from the explicit form
-    let (d, _, _) = fails(&case, &clause)?;
+    let (d, sch, _) = fails(&case, &clause)?;
+    if case.engine == Engine::Thr {
+        if let Some(s) = sch {
+            case.schedule = Some(s);
+        }
+    }
     detail = d;
 
     // truncate after the failing op (SEQ)
@@ -225,8 +251,20 @@ pub fn minimize(mut case: Case, budget_secs: f64) -> Option<Replay> {
             case.schedule = Some(sch);
         }
     }
-    // final confirmation from the explicit minimised form
-    let (d, _, _) = fails(&case, &clause)?;
+    // final confirmation from the explicit minimised form (a THR case must fail under its own
+    // explicit schedule, not under a freshly searched one)
+    let (d, sch, _) = fails(&case, &clause)?;
+    if case.engine == Engine::Thr {
+        if let Some(s) = sch {
+            case.schedule = Some(s);
+        }
+    }
+    let (d, _, _) = fails_once(&case, &clause).or_else(|| {
+        // one more round: the adopted schedule is a recording of a failing run, so this can only
+        // miss if the run is not a function of the schedule - report as not reproduced
+        let _ = &d;
+        None
+    })?;
     Some(Replay {
         property: case.prop.clone(),
         clause,
